@@ -121,7 +121,9 @@ class C04(Check):
         matches = []
         for w in wants:
             fin = ok & np.isfinite(w)
-            m = close_abs(got.data[fin], w[fin], np.maximum(scale[fin], 1.0), rel=1e-9)
+            # bins judged only because a term is undefined have no conditioning scale: the alternatives that are
+            # finite there (e.g. DD/RD - 1 when DR is 0/0) are plain numbers, compared on scale 1
+            m = close_abs(got.data[fin], w[fin], np.where(np.isfinite(scale[fin]), np.maximum(scale[fin], 1.0), 1.0), rel=1e-9)
             # NaN/inf pattern must agree where the oracle is NaN (0/0 bins)
             nanpat = np.array_equal(np.isnan(got.data[ok]), np.isnan(w[ok]))
             matches.append(m and nanpat)
